@@ -328,7 +328,7 @@ impl Compiler {
                     )),
                 }?;
                 self.emit_opcode(OpCode::Jump);
-                self.emit_u16(pos.try_into().unwrap());
+                self.emit_u16(narrow(pos)?);
             }
         }
 
@@ -363,7 +363,7 @@ impl Compiler {
         const_value: isize,
         operator: &Operator,
     ) -> Result<(), Error> {
-        let idx_constant = self.add_constant(Object::try_int(const_value)?);
+        let idx_constant = self.add_constant(Object::try_int(const_value)?)?;
         let symbol = self.symbols.resolve(varname);
         match symbol {
             Some(symbol) => {
@@ -407,18 +407,18 @@ impl Compiler {
             }
             Expr::Float { value } => {
                 let obj = Object::float(*value, &mut self.gc);
-                let idx = self.add_constant(obj);
+                let idx = self.add_constant(obj)?;
                 self.emit_opcode(OpCode::Const);
                 self.emit_u16(idx);
             }
             Expr::Int { value } => {
-                let idx = self.add_constant(Object::try_int(*value)?);
+                let idx = self.add_constant(Object::try_int(*value)?)?;
                 self.emit_opcode(OpCode::Const);
                 self.emit_u16(idx);
             }
             Expr::String { value } => {
                 let obj = Object::string(value.as_str(), &mut self.gc);
-                let idx = self.add_constant(obj);
+                let idx = self.add_constant(obj)?;
                 self.emit_opcode(OpCode::Const);
                 self.emit_u16(idx);
             }
@@ -568,7 +568,7 @@ impl Compiler {
 
                 self.change_jump_operand_at(
                     pos_jump_if_false,
-                    self.instructions.len().try_into().unwrap(),
+                    narrow(self.instructions.len())?,
                 );
 
                 if let Some(alternative) = alternative {
@@ -578,7 +578,7 @@ impl Compiler {
                 }
 
                 // Change operand of last JumpIfFalse opcode to where we're currently at
-                self.change_jump_operand_at(pos_jump, self.instructions.len().try_into().unwrap());
+                self.change_jump_operand_at(pos_jump, narrow(self.instructions.len())?);
             }
             Expr::While { condition, body } => {
                 self.emit_opcode(OpCode::Null);
@@ -595,18 +595,18 @@ impl Compiler {
 
                 // emit jump instruction to loop condition
                 self.emit_opcode(OpCode::Jump);
-                self.emit_u16(pos_before_condition.try_into().unwrap());
+                self.emit_u16(narrow(pos_before_condition)?);
 
                 // Update jump statement for when initial condition evaluated to false (should skip over entire loop)
                 self.change_jump_operand_at(
                     pos_jump_if_false,
-                    self.instructions.len().try_into().unwrap(),
+                    narrow(self.instructions.len())?,
                 );
 
                 // Update jump statements for every break statement inside this loop
                 let ctx = self.loop_contexts.pop().unwrap();
                 for ip in ctx.break_instructions {
-                    self.change_jump_operand_at(ip, self.instructions.len().try_into().unwrap());
+                    self.change_jump_operand_at(ip, narrow(self.instructions.len())?);
                 }
             }
             Expr::Function {
@@ -646,17 +646,17 @@ impl Compiler {
                     self.emit_opcode(OpCode::Return);
                 }
 
-                self.change_jump_operand_at(pos_jump, self.instructions.len().try_into().unwrap());
+                self.change_jump_operand_at(pos_jump, narrow(self.instructions.len())?);
 
                 // Switch back to previous scope again
                 let num_locals = self.symbols.leave_context();
 
                 // Create function object and store as constant
                 let obj = Object::function(
-                    pos_start_function.try_into().unwrap(),
-                    num_locals.try_into().unwrap(),
+                    narrow(pos_start_function)?,
+                    narrow(num_locals)?,
                 );
-                let idx = self.add_constant(obj);
+                let idx = self.add_constant(obj)?;
                 self.emit_opcode(OpCode::Const);
                 self.emit_u16(idx);
 
@@ -683,13 +683,13 @@ impl Compiler {
                     if let Some(builtin) = builtins::resolve(name) {
                         self.emit_opcode(OpCode::CallBuiltin);
                         self.emit_u8(builtin as u8);
-                        self.emit_u8(arguments.len().try_into().unwrap());
+                        self.emit_u8(narrow(arguments.len())?);
                         break 'compile_call;
                     }
                 }
                 self.compile_expression(left)?;
                 self.emit_opcode(OpCode::Call);
-                self.emit_u8(arguments.len().try_into().unwrap());
+                self.emit_u8(narrow(arguments.len())?);
             }
 
             Expr::Array { values } => {
@@ -697,7 +697,7 @@ impl Compiler {
                     self.compile_expression(v)?;
                 }
                 self.emit_opcode(OpCode::Array);
-                self.emit_u16(values.len().try_into().unwrap());
+                self.emit_u16(narrow(values.len())?);
             }
 
             Expr::Index { left, index } => {
@@ -710,20 +710,30 @@ impl Compiler {
         Ok(())
     }
 
-    fn add_constant(&mut self, obj: Object) -> u16 {
+    fn add_constant(&mut self, obj: Object) -> Result<u16, Error> {
         // re-use already defined constants
         if let Some(pos) = self
             .constants
             .iter()
             .position(|c| c.tag() == obj.tag() && c == &obj)
         {
-            return pos.try_into().unwrap();
+            return narrow(pos);
         }
 
         let idx = self.constants.len();
         self.constants.push(obj);
-        idx.try_into().unwrap()
+        narrow(idx)
     }
+}
+
+/// Converts a code position or a count to the width of an instruction operand.
+/// A program that needs more than that is rejected instead of crashing the compiler.
+fn narrow<T: TryFrom<usize>>(value: usize) -> Result<T, Error> {
+    value.try_into().map_err(|_| {
+        Error::SyntaxError(
+            "programma is te groot (te veel instructies, constanten of argumenten)".to_string(),
+        )
+    })
 }
 
 /// We use a string representation of OpCodes to make testing a little easier
